@@ -8,6 +8,7 @@ import (
 	"path/filepath"
 	"regexp"
 	"strings"
+	"time"
 
 	"verif/sim"
 )
@@ -21,27 +22,24 @@ func C13Supervise(o sim.Options, args []string) int {
 		fmt.Fprintln(os.Stderr, "C13 needs the -race build (run.sh builds it); this binary has no race detector")
 		return 2
 	}
-	logBase := filepath.Join(o.Out, "replays", fmt.Sprintf("C13-race-%d", os.Getpid()))
-	os.MkdirAll(filepath.Dir(logBase), 0o755)
-	cmd := exec.Command(os.Args[0], args...)
-	cmd.Env = append(os.Environ(), "VERIF_C13_CHILD=1",
-		"GORACE=halt_on_error=1 exitcode=66 history_size=7 log_path="+logBase)
-	cmd.Stdout = os.Stdout
-	cmd.Stderr = os.Stderr
-	err := cmd.Run()
-	code := 0
-	if err != nil {
-		if ee, ok := err.(*exec.ExitError); ok {
-			code = ee.ExitCode()
-		} else {
-			fmt.Fprintf(os.Stderr, "C13 supervisor: %v\n", err)
-			return 2
-		}
+	rc, logs, curDir := c13Worker(o, nil, args, o.Out, "C13-race")
+	pass := "all CPUs"
+	if rc == 0 {
+		// ONE-CPU PASS. The number of CPUs a process sees (its affinity mask at start-up,
+		// runtime.NumCPU) is an environment dimension GOMAXPROCS does not reach: code may
+		// take a "nothing runs in parallel here" shortcut on a one-CPU host. Concurrency is
+		// not parallelism - goroutines still interleave there - so the same workload is run
+		// once more (a quarter of the runs) in a worker pinned to one CPU.
+		rc, logs, curDir = c13OneCPU(o, args)
+		pass = "one CPU"
 	}
-	logs, _ := filepath.Glob(logBase + ".*")
+	code := rc
 	defer func() {
 		for _, l := range logs {
 			os.Remove(l)
+		}
+		if curDir != o.Out && rc != 1 {
+			os.RemoveAll(curDir)
 		}
 	}()
 	if code != 66 {
@@ -70,12 +68,12 @@ func C13Supervise(o sim.Options, args []string) int {
 		sig = "C13/race/outside-the-library(harness?)"
 	}
 	var cur sim.Replay
-	if b, err := os.ReadFile(filepath.Join(o.Out, "replays", "C13-current.json")); err == nil {
+	if b, err := os.ReadFile(filepath.Join(curDir, "replays", "C13-current.json")); err == nil {
 		json.Unmarshal(b, &cur)
 	}
 	cur.Property = "C13"
 	cur.Signature = sig
-	cur.Detail = "DATA RACE reported by the Go race detector while the goroutines of this run were executing (the interleaving is the Go scheduler's; re-execution of this tape reproduces the same workload):\n" + report
+	cur.Detail = "[" + pass + " pass] DATA RACE reported by the Go race detector while the goroutines of this run were executing (the interleaving is the Go scheduler's; re-execution of this tape reproduces the same workload):\n" + report
 	if len(cur.Detail) > 6000 {
 		cur.Detail = cur.Detail[:6000] + "…"
 	}
@@ -91,6 +89,126 @@ func C13Supervise(o sim.Options, args []string) int {
 	}
 	fmt.Printf("VIOLATION property=C13 replay=%s\n  signature: %s\n  detail: %s\n", path, sig, firstLines(report, 14))
 	return 1
+}
+
+// c13Worker runs the C13 worker (this binary, VERIF_C13_CHILD=1) with the race
+// detector set to halt on the first report; prefix is an optional launcher
+// (taskset). It returns the exit status (2 when the worker could not be run),
+// the race log files and the directory the worker wrote into.
+func c13Worker(o sim.Options, prefix []string, args []string, outDir, tag string, env ...string) (int, []string, string) {
+	logBase := filepath.Join(o.Out, "replays", fmt.Sprintf("%s-%d", tag, os.Getpid()))
+	os.MkdirAll(filepath.Dir(logBase), 0o755)
+	argv := append(append([]string{}, prefix...), os.Args[0])
+	argv = append(argv, args...)
+	cmd := exec.Command(argv[0], argv[1:]...)
+	cmd.Env = append(append(os.Environ(), "VERIF_C13_CHILD=1",
+		"GORACE=halt_on_error=1 exitcode=66 history_size=7 log_path="+logBase), env...)
+	cmd.Stdout = os.Stdout
+	cmd.Stderr = os.Stderr
+	err := cmd.Run()
+	code := 0
+	if err != nil {
+		if ee, ok := err.(*exec.ExitError); ok {
+			code = ee.ExitCode()
+		} else {
+			fmt.Fprintf(os.Stderr, "C13 supervisor: %v\n", err)
+			code = 2
+		}
+	}
+	logs, _ := filepath.Glob(logBase + ".*")
+	return code, logs, outDir
+}
+
+// c13OneCPU runs the second pass in a worker that sees exactly one CPU. Where
+// the environment cannot provide that (no taskset, affinity not settable) the
+// pass is skipped and the evidence says so - never a verdict.
+func c13OneCPU(o sim.Options, args []string) (int, []string, string) {
+	note := func(v map[string]interface{}) {
+		c13PatchEvidence(o, func(cov map[string]interface{}) { cov["one_cpu_pass"] = v })
+	}
+	skip := func(why string) (int, []string, string) {
+		fmt.Printf("C13: one-CPU pass SKIPPED (%s)\n", why)
+		note(map[string]interface{}{"ran": false, "reason": why})
+		return 0, nil, o.Out
+	}
+	if os.Getenv("VERIF_C13_NO_ONECPU") != "" {
+		return skip("VERIF_C13_NO_ONECPU is set")
+	}
+	ts, err := exec.LookPath("taskset")
+	if err != nil {
+		return skip("taskset not found")
+	}
+	cpu := "0"
+	if b, err := os.ReadFile("/proc/self/status"); err == nil {
+		if m := regexp.MustCompile(`Cpus_allowed_list:\s*(\d+)`).FindSubmatch(b); m != nil {
+			cpu = string(m[1])
+		}
+	}
+	prefix := []string{ts, "-c", cpu}
+	probe := exec.Command(ts, "-c", cpu, os.Args[0], "c13-numcpu")
+	pb, err := probe.Output()
+	if err != nil || strings.TrimSpace(string(pb)) != "1" {
+		return skip(fmt.Sprintf("a process started under taskset -c %s reports NumCPU=%q (%v)", cpu, strings.TrimSpace(string(pb)), err))
+	}
+	// the worker's output directory; it is kept when the pass ends with a
+	// violation (its replay file lives there) and removed otherwise
+	tmp := filepath.Join(o.Out, "replays", fmt.Sprintf("onecpu-%d", os.Getpid()))
+	if err := os.MkdirAll(tmp, 0o755); err != nil {
+		return skip("no scratch directory: " + err.Error())
+	}
+	a := append([]string{}, args...)
+	a = append(a, "-out", tmp)
+	if o.Replay == "" && o.Only < 0 {
+		mul := o.RunsMul
+		if mul <= 0 {
+			mul = 1
+		}
+		a = append(a, "-mul", fmt.Sprintf("%g", mul*0.25))
+	}
+	t0 := time.Now()
+	rc, logs, _ := c13Worker(o, prefix, a, tmp, "C13-race1cpu", "VERIF_C13_ONECPU=1")
+	if rc == 0 {
+		v := map[string]interface{}{"ran": true, "launcher": strings.Join(prefix, " "), "wall_s": time.Since(t0).Seconds()}
+		if b, err := os.ReadFile(filepath.Join(tmp, "evidence", "C13.json")); err == nil {
+			var ev struct {
+				Coverage map[string]interface{} `json:"coverage"`
+			}
+			if json.Unmarshal(b, &ev) == nil {
+				for _, k := range []string{"simulated_runs", "evaluations", "distinct_nontrivial", "counters", "events", "event_log_fold", "gomaxprocs", "numcpu", "race_detector_enabled"} {
+					if x, ok := ev.Coverage[k]; ok {
+						v[k] = x
+					}
+				}
+			}
+		}
+		note(v)
+		fmt.Printf("C13: one-CPU pass (%s) clean: %v runs\n", strings.Join(prefix, " "), v["simulated_runs"])
+	}
+	return rc, logs, tmp
+}
+
+// c13PatchEvidence adds keys to the coverage object of the evidence file the
+// first worker wrote (replays and -only runs write none: nothing to patch).
+func c13PatchEvidence(o sim.Options, f func(cov map[string]interface{})) {
+	p := filepath.Join(o.Out, "evidence", "C13.json")
+	b, err := os.ReadFile(p)
+	if err != nil || o.Replay != "" || o.Only >= 0 {
+		return
+	}
+	var ev map[string]interface{}
+	dec := json.NewDecoder(strings.NewReader(string(b)))
+	dec.UseNumber()
+	if dec.Decode(&ev) != nil {
+		return
+	}
+	cov, _ := ev["coverage"].(map[string]interface{})
+	if cov == nil {
+		return
+	}
+	f(cov)
+	if nb, err := json.MarshalIndent(ev, "", " "); err == nil {
+		os.WriteFile(p, append(nb, '\n'), 0o644)
+	}
 }
 
 func firstLines(s string, n int) string {
